@@ -14,7 +14,7 @@
    scripted connect future (resolves after [lat] Pending polls with the answer the environment had
    when the connector was invoked) are explicit in [serve] and [make_service]. *)
 From Coq Require Import List NArith Bool.
-From Verif Require Import Lib.Obs Gen.StatusTables.
+From Verif Require Import Lib.Obs Gen.StatusTables Model.Status.
 Import ListNotations.
 Open Scope N_scope.
 
@@ -35,17 +35,30 @@ Arguments Err {A E} e.
 Inductive ekind := Refused | Handshake.
 Record cerr := mkErr { e_attempt : N; e_reason : N; e_kind : ekind }.
 
+(* What lies beneath the ConnectError.  The reason the environment gives for a failure also fixes
+   the SHAPE of the underlying error (the scripted connector / io decodes it the same way):
+   [c_kind]  0..19 = a std::io::Error of that io::ErrorKind (NotFound, PermissionDenied,
+             ConnectionRefused, ConnectionReset, ConnectionAborted, NotConnected, AddrInUse,
+             AddrNotAvailable, BrokenPipe, AlreadyExists, WouldBlock, InvalidInput, InvalidData,
+             TimedOut, WriteZero, Interrupted, Unsupported, UnexpectedEof, OutOfMemory, Other),
+             20 = a custom error type, 21 = a boxed String, 22.. = io::ErrorKind::Other;
+   [c_depth] 0..2 = number of wrapper errors (with source()) between the ConnectError and it.
+   Every reason is possible, so the theorems quantify over every kind and depth. *)
+Record cause := mkCause { c_kind : N; c_depth : nat }.
+Definition cause_of_reason (r : N) : cause := mkCause (r mod 32) (N.to_nat ((r / 32) mod 3)).
+
 (* ---------------------------------------------------------------- environment *)
 Inductive reach :=
 | Up
 | Down (reason : N)
-| UpDead        (* the transport connects, the peer closes at once: the HTTP/2 handshake fails *)
+| UpDead (reason : N)   (* the transport connects, but the io fails ([reason] fixes the io error)
+                           / the peer closes at once: the HTTP/2 handshake fails *)
 | UpGarbage.    (* the transport connects, the handshake (write-only in hyper) passes, the peer
                    answers with bytes that are not HTTP/2 and closes *)
 Inductive ev :=
 | ConnectFails (reason : N)      (* from now on the connector's attempts are refused with [reason] *)
 | ConnectSucceeds                (* from now on the connector's attempts succeed *)
-| ConnectSucceedsDead            (* from now on the connector succeeds but the peer closes at once *)
+| ConnectSucceedsDead (reason : N)   (* from now on the connector succeeds but the handshake fails *)
 | ConnectSucceedsGarbage         (* from now on the connector succeeds but the peer is not HTTP/2 *)
 | ConnectionDropped.             (* the peer drops the established connection (if any); noticed by
                                     the client's connection task before the next step: quiescence *)
@@ -119,7 +132,7 @@ Definition make_service (w : world) : option (world * cfut) :=
           Fut (w_lat w) (match w_net w with
                          | Up => Ok Alive
                          | Down r => Err (mkErr k r Refused)
-                         | UpDead => Err (mkErr k 0 Handshake)
+                         | UpDead r => Err (mkErr k r Handshake)
                          | UpGarbage => Ok Severed
                          end))
   else None.
@@ -285,7 +298,7 @@ Section Stack.
     match e with
     | ConnectFails r => (ch, set_net w (Down r))
     | ConnectSucceeds => (ch, set_net w Up)
-    | ConnectSucceedsDead => (ch, set_net w UpDead)
+    | ConnectSucceedsDead r => (ch, set_net w (UpDead r))
     | ConnectSucceedsGarbage => (ch, set_net w UpGarbage)
     | ConnectionDropped => (drop_conn Closed ch, w)
     end.
@@ -350,56 +363,24 @@ Definition run (is_lazy : bool) (lat prl : nat) (net0 : reach) (h : list step) :
   run_with real_conn_poll_ready real_send_request (fuel_for lat prl) is_lazy lat prl net0 h.
 
 (* ---------------------------------------------------------------- error -> Status (status.rs) *)
-(* the links of an error's source() chain that Status::from_error distinguishes *)
-Inductive elink :=
-| LStatus (code : N)
-| LTimeoutExpired
-| LConnectError
-| LHyper (is_timeout is_canceled : bool) (h2_code : option N)
-| LOther.                            (* transport::Error, tower ServiceError, io::Error, ... *)
-
-(* Status::from_hyper_error *)
-Definition from_hyper_error (is_timeout is_canceled : bool) (h2_code : option N) : option N :=
-  if is_timeout then Some Code_Unavailable
-  else if is_canceled then Some Code_Cancelled
-  else h2_code.
-
-(* find_status_in_source_chain *)
-Fixpoint find_status_in_source_chain (chain : list elink) : option N :=
-  match chain with
-  | [] => None
-  | l :: rest =>
-      match l with
-      | LStatus c => Some c
-      | LTimeoutExpired => Some Code_Cancelled
-      | LConnectError => Some Code_Unavailable
-      | LHyper t c h =>
-          match from_hyper_error t c h with
-          | Some s => Some s
-          | None => find_status_in_source_chain rest
-          end
-      | LOther => find_status_in_source_chain rest
-      end
-  end.
-
-(* Status::from_error (the top-level downcasts to Status / h2::Error are subsumed: a transport
-   error is neither) *)
-Definition code_from_error (chain : list elink) : N :=
-  match find_status_in_source_chain chain with Some c => c | None => Code_Unknown end.
+(* Status::from_error on a source chain is Model/Status.v's [from_error_code] over [enode]s:
+   Status / TimeoutExpired / ConnectError / hyper::Error are recognised, everything else - an
+   io::Error of WHATEVER kind, a custom error, a String, transport::Error, tower's ServiceError -
+   is [EOther] and is skipped. *)
 
 (* source chains of what a Channel call fails with *)
-Definition chain_of_err (e : cerr) : list elink :=
-  match e_kind e with
-  | Refused => [LOther; LConnectError; LOther]       (* transport::Error > ConnectError > io::Error *)
-  | Handshake => [LOther; LConnectError; LHyper false false None; LOther]
-                                    (* transport::Error > ConnectError > hyper::Error(Io) > io::Error *)
-  end.
-Definition chain_of (o : outcome) : option (list elink) :=
+(* transport::Error > ConnectError > [hyper::Error(Io) >] wrappers > the underlying error *)
+Definition chain_of_err (e : cerr) : list enode :=
+  EOther :: EConnect ::
+  (match e_kind e with Refused => [] | Handshake => [EHyper false false None] end) ++
+  repeat EOther (c_depth (cause_of_reason (e_reason e))) ++ [EOther].
+Definition code_from_error := from_error_code.
+Definition chain_of (o : outcome) : option (list enode) :=
   match o with
   | ConnectErr e => Some (chain_of_err e)
-  | ServiceFailed e => Some (LOther :: chain_of_err e)          (* .. > buffer ServiceError > .. *)
-  | Canceled => Some [LOther; LHyper false true None]
-  | WorkerClosed => Some [LStatus Code_Unknown]                 (* Status::unknown built by the generated client *)
+  | ServiceFailed e => Some (EOther :: chain_of_err e)          (* .. > buffer ServiceError > .. *)
+  | Canceled => Some [EOther; EHyper false true None]
+  | WorkerClosed => Some [EStatus Code_Unknown]                 (* Status::unknown built by the generated client *)
   | _ => None
   end.
 Definition outcome_code (o : outcome) : option N :=
@@ -467,7 +448,7 @@ Fixpoint net_after (net : reach) (h : list step) : reach :=
   | [] => net
   | Env (ConnectFails r) :: h' => net_after (Down r) h'
   | Env ConnectSucceeds :: h' => net_after Up h'
-  | Env ConnectSucceedsDead :: h' => net_after UpDead h'
+  | Env (ConnectSucceedsDead r) :: h' => net_after (UpDead r) h'
   | Env ConnectSucceedsGarbage :: h' => net_after UpGarbage h'
   | _ :: h' => net_after net h'
   end.
